@@ -78,4 +78,13 @@ def idsOf : List Item → List Nat
 def injectiveOn (π : Nat → Nat) (ids : List Nat) : Bool :=
   ids.all (fun i => ids.all (fun j => π i != π j || i == j))
 
+/-- the ids met after the whole dump, oldest first (`seen` = those met before) -/
+def finalSeen : List Nat → List Item → List Nat
+  | seen, [] => seen
+  | seen, .lit _ :: rest => finalSeen seen rest
+  | seen, .ref i :: rest => finalSeen (if seen.contains i then seen else seen ++ [i]) rest
+
+/-- the renaming `canon` applies: an id ↦ the position of its first occurrence -/
+def firstIndex (d : List Item) (i : Nat) : Nat := indexIn i (finalSeen [] d)
+
 end Cppcheck.Determinism
